@@ -31,6 +31,7 @@ type concCtx struct {
 
 // within runs f under a watchdog; on expiry it reports with a goroutine dump and returns false.
 func (c *concCtx) within(prop, sig, what string, f func()) bool {
+	beat()
 	done := make(chan struct{})
 	go func() { defer close(done); f() }()
 	select {
@@ -268,7 +269,7 @@ func (c *concCtx) scenarioLeak(cycles int) {
 		}
 		check(err)
 		w.Add(dir)
-		switch i % 5 {
+		switch i % 7 {
 		case 0:
 		case 1:
 			os.WriteFile(filepath.Join(dir, "x"), nil, 0o644) // pending event, never read
@@ -278,6 +279,11 @@ func (c *concCtx) scenarioLeak(cycles int) {
 			go w.Close() // concurrent Close
 		case 4:
 			go w.Add(dir) // Close racing Add
+		case 5:
+			go w.Remove(dir) // Close racing Remove
+		case 6:
+			go w.Remove(dir) // Close racing Remove and Add
+			go w.Add(dir)
 		}
 		if !c.within("C13", "C13:close-blocked", "Close did not return in the leak loop", func() { w.Close() }) {
 			return
@@ -459,7 +465,10 @@ func (c *concCtx) scenarioLinearizable(g *rng, round int) {
 			}
 		}(t)
 	}
-	wg.Wait()
+	if !c.within("C07", "C07:deadlock", "concurrent Add/Remove/WatchList calls did not all return", wg.Wait) {
+		close(stopFS)
+		return
+	}
 	close(stopFS)
 	res := porcupine.CheckOperationsTimeout(setModel, ops, 5*time.Second)
 	if res == porcupine.Illegal {
@@ -707,6 +716,9 @@ func runConc(r *rec, g *rng, tier, what, out string, extra map[string]interface{
 	if want("C06") {
 		c.raceClose(r, "C06", thorough)
 	}
+	if want("C05") {
+		c.raceClose(r, "C05", thorough)
+	}
 	if want("C13") {
 		n := 300
 		if thorough {
@@ -714,6 +726,7 @@ func runConc(r *rec, g *rng, tier, what, out string, extra map[string]interface{
 		}
 		c.scenarioLeak(n)
 		c.scenarioNewFails()
+		c.raceClose(r, "C13", thorough)
 	}
 	if want("C07") {
 		n := 150
@@ -753,12 +766,15 @@ func (c *concCtx) raceClose(r *rec, prop string, thorough bool) {
 	check(err)
 	defer os.RemoveAll(dir)
 	bad := map[string]int{}
+	runtime.GC()
+	fd0, g0 := inotifyFds(), fsnotifyGoroutines()
 	for i := 0; i < m; i++ {
 		w, err := fsnotify.NewWatcher()
 		check(err)
 		var wg sync.WaitGroup
-		var e2 error
-		adds := make([]error, 6)
+		nrem := 1 + i%3
+		rems := make([]error, nrem)
+		adds := make([]error, 6-nrem)
 		start := make(chan struct{})
 		for a := range adds {
 			wg.Add(1)
@@ -770,22 +786,39 @@ func (c *concCtx) raceClose(r *rec, prop string, thorough bool) {
 				}
 			}(a)
 		}
-		wg.Add(2)
-		go func() { defer wg.Done(); <-start; e2 = w.Remove(dir) }()
+		for a := range rems {
+			wg.Add(1)
+			go func(a int) { defer wg.Done(); <-start; rems[a] = w.Remove(dir) }(a)
+		}
+		wg.Add(1)
 		go func() { defer wg.Done(); <-start; runtime.Gosched(); w.Close() }()
 		close(start)
-		wg.Wait()
+		if !c.within(prop, prop+":call-racing-close-blocked", "Add / Remove / Close racing each other did not all return", wg.Wait) {
+			break
+		}
+		// every later Close returns too, and the API is inert
+		if !c.within(prop, prop+":close-after-race-blocked", "Close after a Close that raced Add/Remove did not return", func() { w.Close() }) {
+			break
+		}
 		for _, e1 := range adds {
 			if e1 != nil && !errors.Is(e1, fsnotify.ErrClosed) {
 				bad["add:"+errClass(e1)]++
 			}
 		}
-		if e2 != nil && !errors.Is(e2, fsnotify.ErrNonExistentWatch) {
-			bad["remove:"+errClass(e2)]++
+		for _, e2 := range rems {
+			if e2 != nil && !errors.Is(e2, fsnotify.ErrNonExistentWatch) {
+				bad["remove:"+errClass(e2)]++
+			}
 		}
 	}
-	for k, n := range bad {
-		c.report(prop, prop+":call-racing-close:"+k, fmt.Sprintf("%d of %d calls racing Close returned %s (the syscall ran on the closed descriptor)", n, m, k), map[string]interface{}{})
+	if prop == "C06" || prop == "C07" {
+		for k, n := range bad {
+			c.report(prop, prop+":call-racing-close:"+k, fmt.Sprintf("%d of %d calls racing Close returned %s (the syscall ran on the closed descriptor)", n, m, k), map[string]interface{}{})
+		}
+	}
+	if prop == "C13" && !settle(func() bool { return inotifyFds() == fd0 && fsnotifyGoroutines() == g0 }) {
+		c.report("C13", "C13:leak-after-race", fmt.Sprintf("after %d rounds of Add/Remove racing Close: inotify descriptors %d -> %d, reader goroutines %d -> %d", m, fd0, inotifyFds(), g0, fsnotifyGoroutines()),
+			map[string]interface{}{})
 	}
 	r.emit("scenario", fmt.Sprintf("scenario race_close rounds=%d", m), "ok")
 }
